@@ -4,10 +4,29 @@ use crate::ctl::{event, with, Ev};
 use std::num::NonZeroUsize;
 use std::time::Duration;
 
-pub use loom::thread::Thread;
+/// `std::thread::Thread` of the hooked build: loom's handle, with `unpark` made
+/// a scheduling point.  loom's own `unpark` is not one (and it joins the
+/// caller's clock into the target at once), so the window between a waker's
+/// final state store and its `unpark()` would never be explored: a waiter that
+/// returns from `park()` spuriously inside that window has only the state
+/// word to synchronise through.  `unpark` and `park` both bump a loom atomic
+/// that belongs to the target thread (relaxed: no happens-before edge), which
+/// makes them dependent operations: the exploration tries both orders.
+#[derive(Clone, Debug)]
+pub struct Thread(loom::thread::Thread);
+
+impl Thread {
+    pub fn unpark(&self) {
+        crate::track::park_token(self.0.id());
+        self.0.unpark()
+    }
+    pub fn id(&self) -> loom::thread::ThreadId {
+        self.0.id()
+    }
+}
 
 pub fn current() -> Thread {
-    loom::thread::current()
+    Thread(loom::thread::current())
 }
 
 /// loom's token-based park; the `spurious_park` knob makes the n-th park call
@@ -27,9 +46,11 @@ pub fn park() {
             false
         }
     });
+    crate::track::park_token(loom::thread::current().id());
     if spurious {
-        // still a scheduling point
-        loom::thread::yield_now();
+        // the token bump above is the scheduling point; no yield: a loom yield
+        // lets the peer run past its next scheduling point first, which is
+        // exactly the window (final state store .. unpark) to be explored
         return;
     }
     loom::thread::park()
